@@ -399,6 +399,67 @@ func GenSharedOptionWorkload(r *Rand) *Workload {
 	return w
 }
 
+// GenShapesWorkload: one struct with a field of every shape the option rules care
+// about (scalars, a boolean with a default, arrays and maps of scalars, booleans and
+// structs, a reference, a union), so that chains of rules on one option have something to act on.
+func GenShapesWorkload(r *Rand) *Workload {
+	w := &Workload{Files: map[string]string{}, Types: true, Builders: true}
+	str := func() *WType { return &WType{K: "string"} }
+	boolean := func() *WType { return &WType{K: "bool"} }
+	p := &WPackage{Name: "shapes", Objects: []WObject{
+		{Name: "Inner", T: &WType{K: "struct", Fields: []WField{{Name: "x", T: &WType{K: "int"}, Required: true}, {Name: "on", T: boolean()}, {Name: "label", T: str()}}}},
+		{Name: "Other", T: &WType{K: "struct", Fields: []WField{{Name: "y", T: str(), Required: true}}}},
+		{Name: "Thing", T: &WType{K: "struct", Fields: []WField{
+			{Name: "title", T: str(), Required: true},
+			{Name: "enabled", T: &WType{K: "bool", Default: true}},
+			{Name: "labels", T: &WType{K: "array", Elem: str()}},
+			{Name: "switches", T: &WType{K: "array", Elem: boolean()}},
+			{Name: "flags", T: &WType{K: "map", Elem: boolean()}},
+			{Name: "names", T: &WType{K: "map", Elem: str()}},
+			{Name: "inners", T: &WType{K: "array", Elem: &WType{K: "ref", Ref: "Inner"}}},
+			{Name: "byName", T: &WType{K: "map", Elem: &WType{K: "ref", Ref: "Inner"}}},
+			{Name: "inner", T: &WType{K: "ref", Ref: "Inner"}},
+			{Name: "either", T: &WType{K: "union", Branches: []*WType{{K: "ref", Ref: "Inner"}, {K: "ref", Ref: "Other"}}}},
+			{Name: "scalarOrNull", T: &WType{K: "union", Branches: []*WType{str(), {K: "null"}}}},
+		}}},
+	}}
+	if r.Bool() {
+		w.Files["in/shapes/schema.json"] = p.RenderJSONSchema()
+		w.Inputs = []InputSpec{{Kind: "jsonschema", Path: "in/shapes/schema.json", Package: "shapes"}}
+	} else {
+		w.Files["in/shapes/openapi.json"] = p.RenderOpenAPI()
+		w.Inputs = []InputSpec{{Kind: "openapi", Path: "in/shapes/openapi.json", Package: "shapes"}}
+	}
+	w.Languages = GenLanguages(r, 1, 2)
+	w.Name = "shapes -> " + strings.Join(w.LangNames(), ",")
+	return w
+}
+
+// GenFoldedDefaultsWorkload: a fields_set_default whose keys differ in letter case only
+// (they all name the same field) and carry different values, next to other configuration
+// maps with several entries (hints, omit lists).
+func GenFoldedDefaultsWorkload(r *Rand) *Workload {
+	w := &Workload{Files: map[string]string{}, Types: true, Builders: r.Bool()}
+	p := &WPackage{Name: "folded", Objects: []WObject{
+		{Name: "Panel", T: &WType{K: "struct", Fields: []WField{{Name: "height", T: &WType{K: "int"}}, {Name: "title", T: &WType{K: "string"}}, {Name: "unit", T: &WType{K: "string"}}}}},
+	}}
+	w.Files["in/folded/schema.json"] = p.RenderJSONSchema()
+	w.Inputs = []InputSpec{{Kind: "jsonschema", Path: "in/folded/schema.json", Package: "folded", Transformations: []string{"cfg/folded_passes.yaml"}}}
+	var b strings.Builder
+	b.WriteString("passes:\n  - fields_set_default:\n      defaults:\n")
+	for i, k := range Shuffled(r, []string{"folded.Panel.height", "folded.panel.Height", "folded.PANEL.HEIGHT", "folded.pAnel.heiGht"}) {
+		fmt.Fprintf(&b, "        %s: %d\n", k, i+1)
+	}
+	for i, k := range Shuffled(r, []string{"folded.Panel.title", "folded.panel.TITLE"}) {
+		fmt.Fprintf(&b, "        %s: 't%d'\n", k, i)
+	}
+	b.WriteString("  - hint_object:\n      object: folded.Panel\n      hints:\n        first_hint: a\n        second_hint: b\n        third_hint: c\n")
+	w.Files["cfg/folded_passes.yaml"] = b.String()
+	w.Languages = GenLanguages(r, 1, 3)
+	w.Name = "folded-defaults -> " + strings.Join(w.LangNames(), ",")
+	return w
+}
+
 // GenFactoriesWorkload: builders with factories in three packages, for the
 // languages whose jennies group factories by package (Java, PHP).
 func GenFactoriesWorkload(r *Rand) *Workload {
